@@ -19,7 +19,7 @@ func init() {
 		ID:    "C02",
 		Level: "exploration",
 		Rule: "trial = queued (and sync) channel, 1..4 writers x few writes; plans: sender parked after its final flush / after recycling / at executor start until all calls returned (the lost-wake-up window with nothing left to rescue a stranded payload), " +
-			"pairwise windows, PCT delays, stress; oracle at logical quiescence (all calls returned AND every sender action handed to the tracking executor has returned): accepted set == set on the wire, unflushed == 0; " +
+			"pairwise windows, PCT delays, stress; plus one or two calls through each single entry point (incl. ReadFrom over data+EOF readers) on an idle channel; oracle at logical quiescence (all calls returned AND every sender action handed to the tracking executor has returned): accepted set == set on the wire, unflushed == 0; " +
 			"distinct_nontrivial = distinct event-order signatures among trials with >=2 role alternations",
 		Assumptions: []string{
 			"bounded progress: 'eventually' is judged at logical quiescence, never after a sleep; a watchdog expiry (20 s) is inconclusive",
